@@ -25,7 +25,7 @@ def run(ctx, replay=None):
             ctx.count('target-ops-by-requests:%d' % recs[ti]['nreq'])
             inj += inject_variants(h, recs[ti]['nreq'])
     if not quick:                                     # random histories with one failure somewhere in the middle, several seeds
-        R = random_hists(rng, 900, 60)
+        R = random_hists(rng, 3000, 80)
         rg, _ = evaluate(ctx, exe, R, 'C15')
         for h, recs in rg:
             for _ in range(3):
@@ -43,7 +43,7 @@ def run(ctx, replay=None):
         if exa is None:
             ctx.broken.append(('obligation:build-asan', msg))
         else:
-            res, found = run_asan(ctx, exa, inj[::3], 'C15')
+            res, found = run_asan(ctx, exa, inj, 'C15')
             ctx.count('asan-histories', len(res))
             for h, kind, err, _ in found:
                 ctx.report('impl-vs-property', {'container': h.typ, 'op': opkind(h.target) if h.target != 'new' else 'new', 'observed': 'sanitizer', 'kind': kind.split(':')[-1].strip()},
